@@ -605,6 +605,17 @@ func driverFillEll(c *Ctx) {
 		}
 		ev["once"], _ = outcomeOf(func() ast.ItemNode { return t.FillVariables(all) })
 		ev["steps"], _ = outcomeOf(func() ast.ItemNode { return t.FillVariables(counts).FillVariables(values) })
+		// the same fill through a message holding the template: the item tree changes as the item alone does, nothing else
+		gm := g.header(true)
+		m := ast.NewDataMessage(gm.Name, gm.S, gm.F, 2, gm.Dir, t).SetSessionIDAndSystemBytes(gm.Sid, gm.Sys)
+		ev["msgbefore"] = projMsg(m)
+		ev["msgafter"] = J{"outcome": "refused"}
+		try(func() {
+			m2 := m.FillVariables(all)
+			r := projMsg(m2)
+			r["outcome"] = "ok"
+			ev["msgafter"] = r
+		})
 		c.emit(i, ev)
 		c.count("fillell.cases")
 		if expanded == nil {
